@@ -111,7 +111,12 @@ namespace ST
         {
             m_chars = is_reffed() ? move.m_chars : m_data;
             traits_t::copy(m_data, move.m_data, local_length);
+
+            // Leave the source as a valid empty buffer which no longer
+            // refers to the storage that was just taken over
+            move.m_chars = move.m_data;
             move.m_size = 0;
+            traits_t::assign(move.m_data, local_length, 0);
         }
 
         buffer(const char_T *data, size_t size)
@@ -188,11 +193,22 @@ namespace ST
 
         buffer<char_T> &operator=(buffer<char_T> &&move) noexcept
         {
+            if (this == &move)
+                return *this;
+
             std::swap(m_chars, move.m_chars);
             std::swap(m_size, move.m_size);
+
+            // The in-object storage has to be exchanged as well, and each
+            // object must point at its own copy of it
+            char_T swap_data[local_length];
+            traits_t::copy(swap_data, m_data, local_length);
             traits_t::copy(m_data, move.m_data, local_length);
+            traits_t::copy(move.m_data, swap_data, local_length);
             if (!is_reffed())
                 m_chars = m_data;
+            if (!move.is_reffed())
+                move.m_chars = move.m_data;
             return *this;
         }
 
